@@ -320,7 +320,10 @@ def main_check(pid, tier, seed):
                 print(f"KNOWN-FINDING: property={pid} {entry['id']} {entry['what']}")
             continue
         case, detail = b["case"], b["detail"]
-        budget = 20.0 if tier == "quick" else 90.0
+        n_unlisted = sum(1 for s2 in ctx.buckets if not any(
+            e["status"] == "known" and kf_matches(e, s2, ctx.buckets[s2]["detail"]) for e in known))
+        total = float(os.environ.get("VERIF_SHRINK_S", 40.0 if tier == "quick" else 300.0))
+        budget = max(1.0, min(20.0 if tier == "quick" else 90.0, total / max(1, n_unlisted)))
 
         def still(c, _sig=sig):
             return any(s == _sig for s, _ in safe_judge(mod, c))
@@ -334,7 +337,7 @@ def main_check(pid, tier, seed):
                     detail = fl[0]
             except Exception:
                 traceback.print_exc()
-        rdir = os.path.join(ROOT, "replays", pid)
+        rdir = os.path.join(os.environ.get("VERIF_REPLAY_DIR") or os.path.join(ROOT, "replays"), pid)
         os.makedirs(rdir, exist_ok=True)
         rpath = os.path.join(rdir, f"v-{h12(sig)}.json")
         with open(rpath, "w") as f:
@@ -342,7 +345,7 @@ def main_check(pid, tier, seed):
                        "tier": tier, "utype_commit": utype_commit(), "count": b["count"],
                        "reproduced_by_judge": reproduced}, f, indent=1, default=repr)
         violations.append((sig, rpath))
-        bucket_report[sig]["replay"] = os.path.relpath(rpath, ROOT)
+        bucket_report[sig]["replay"] = rpath
 
     # 3. evidence
     samples = []
@@ -367,8 +370,9 @@ def main_check(pid, tier, seed):
         "coverage": coverage, "assumptions": list(getattr(mod, "ASSUMPTIONS", [])),
         "wall_s": round(time.time() - t0, 2), "violations": len(violations),
     }
-    os.makedirs(os.path.join(ROOT, "evidence"), exist_ok=True)
-    with open(os.path.join(ROOT, "evidence", f"{pid}.json"), "w") as f:
+    evdir = os.environ.get("VERIF_EVIDENCE_DIR") or os.path.join(ROOT, "evidence")
+    os.makedirs(evdir, exist_ok=True)
+    with open(os.path.join(evdir, f"{pid}.json"), "w") as f:
         json.dump(ev, f, indent=1, default=repr)
 
     # generator health: a campaign that produced (almost) nothing non-trivial is a harness failure
